@@ -98,6 +98,14 @@ def cp_apr(  # noqa: PLR0913
         tmp.nnz == 0
     ), "Data tensor must be nonnegative for Poisson-based factorization"
 
+    if isinstance(input_tensor, ttb.sptensor) and input_tensor.nnz == 0:
+        # An sptensor without nonzeros stores degenerate (1, 0) index and value
+        # arrays, but the solvers address subs[:, n]: work on a private copy that
+        # holds well-formed empty arrays (all-zero data, as for a dense tensor).
+        input_tensor = input_tensor.copy()
+        input_tensor.subs = np.zeros((0, N), dtype=int)
+        input_tensor.vals = np.zeros((0, 1))
+
     # Set up an initial guess for the factor matrices.
     if isinstance(init, ttb.ktensor):
         # User provided an initial ktensor; validate it
